@@ -191,7 +191,7 @@ func checkC02(r *core.Run) {
 	}
 	comps := c02Comps()
 	// marker payloads (clauses about where untrusted data lands) and dangerous splits (scheme clause)
-	markers := []string{c02Marker, c02Marker + "\"'<>&", "javascript:" + c02Marker, "//evil/" + c02Marker, " " + c02Marker + " onx=1"}
+	markers := []string{c02Marker, c02Marker + "\"'<>&", "javascript:" + c02Marker, c02Marker + ".css", " " + c02Marker + " onx=1"}
 	type job struct {
 		el, attr, q, pre string
 		comp             c02Comp
@@ -246,27 +246,34 @@ func checkC02(r *core.Run) {
 	special := []struct {
 		name, text string
 		parts      []string
+		rng        bool
 	}{
-		{"helper-two-prefixes", `<a href="/x/{{template "h" $}}">1</a><a href="{{template "h" $}}">2</a>{{define "h"}}` + S + `{{end}}`, nil},
-		{"helper-two-prefixes-rev", `<a href="{{template "h" $}}">1</a><a href="/x/{{template "h" $}}">2</a>{{define "h"}}` + S + `{{end}}`, nil},
-		{"helper-query-then-start", `<a href="/p?q={{template "h" $}}">1</a><a href="{{template "h" $}}">2</a>{{define "h"}}` + S + `{{end}}`, nil},
-		{"helper-text-then-href", `<p>{{template "h" $}}</p><a href="{{template "h" $}}">2</a>{{define "h"}}` + S + `{{end}}`, nil},
-		{"helper-title-then-href", `<a title="{{template "h" $}}" href="{{template "h" $}}">2</a>{{define "h"}}` + S + `{{end}}`, nil},
-		{"helper-script-src-two-prefixes", `<script src="/x/{{template "h" $}}"></script><script src="{{template "h" $}}"></script>{{define "h"}}` + S + `{{end}}`, nil},
-		{"helper-img-src-two-prefixes", `<img src="/x/{{template "h" $}}"><img src="{{template "h" $}}">{{define "h"}}` + S + `{{end}}`, nil},
-		{"link-rel-after-href", `<link href="` + S + `" rel="stylesheet">`, nil},
-		{"link-rel-dynamic", `<link rel="` + S + ` icon" href="` + S + `">`, []string{"stylesheet", c02Marker}},
-		{"link-rel-dynamic-only", `<link rel="` + S + `" href="` + S + `">`, []string{"stylesheet", c02Marker}},
-		{"link-rel-twice", `<link rel="stylesheet" rel="icon" href="` + S + `">`, nil},
-		{"link-rel-conditional", `<link {{if $.C}}rel="icon"{{else}}rel="stylesheet"{{end}} href="` + S + `">`, nil},
-		{"script-body", `<script>` + S + `</script>`, nil},
-		{"script-body-string", `<script>var x = "` + S + `";</script>`, nil},
-		{"style-body", `<style>` + S + `</style>`, nil},
-		{"style-body-decl", `<style>p{color:` + S + `}</style>`, nil},
-		{"comment", `<!-- ` + S + ` -->x`, nil},
-		{"comment-in-attr", `<a title="<!--` + S + `-->">`, nil},
-		{"script-after-comment-open", `<script><!--<script></script>` + S + `</script>`, nil},
-		{"textarea-then-script", `<textarea>` + S + `</textarea><script>` + S + `</script>`, nil},
+		{"helper-two-prefixes", `<a href="/x/{{template "h" $}}">1</a><a href="{{template "h" $}}">2</a>{{define "h"}}` + S + `{{end}}`, nil, false},
+		{"helper-two-prefixes-rev", `<a href="{{template "h" $}}">1</a><a href="/x/{{template "h" $}}">2</a>{{define "h"}}` + S + `{{end}}`, nil, false},
+		{"helper-query-then-start", `<a href="/p?q={{template "h" $}}">1</a><a href="{{template "h" $}}">2</a>{{define "h"}}` + S + `{{end}}`, nil, false},
+		{"helper-text-then-href", `<p>{{template "h" $}}</p><a href="{{template "h" $}}">2</a>{{define "h"}}` + S + `{{end}}`, nil, false},
+		{"helper-title-then-href", `<a title="{{template "h" $}}" href="{{template "h" $}}">2</a>{{define "h"}}` + S + `{{end}}`, nil, false},
+		{"helper-script-src-two-prefixes", `<script src="/x/{{template "h" $}}"></script><script src="{{template "h" $}}"></script>{{define "h"}}` + S + `{{end}}`, nil, false},
+		{"helper-img-src-two-prefixes", `<img src="/x/{{template "h" $}}"><img src="{{template "h" $}}">{{define "h"}}` + S + `{{end}}`, nil, false},
+		{"link-rel-after-href", `<link href="` + S + `" rel="stylesheet">`, nil, false},
+		{"link-rel-dynamic", `<link rel="` + S + ` icon" href="` + S + `">`, []string{"stylesheet", c02Marker}, false},
+		{"range-body-switches-attribute", `<a title="{{range $.L}}{{.}}" href="{{end}}x">y</a>`, []string{"t", "javascript:alert(1)"}, true},
+		{"range-body-switches-attribute-2", `<img alt="{{range $.L}}{{.}}" src="{{end}}x">`, []string{"t", "javascript:alert(1)", "u"}, true},
+		{"range-body-closes-tag", `<a title="{{range $.L}}{{.}}"><script>{{end}}x</script>`, []string{"t", c02Marker}, true},
+		{"helper-shared-by-link-icon-and-stylesheet", `{{define "hp"}}{{.}}{{end}}<link rel="icon" href="{{template "hp" $.P0}}"><link rel="stylesheet" href="{{template "hp" $.P1}}">`, []string{"/i.png", c02Marker + ".css"}, false},
+		{"helper-shared-by-stylesheet-and-icon", `{{define "hp"}}{{.}}{{end}}<link rel="stylesheet" href="{{template "hp" $.P0}}"><link rel="icon" href="{{template "hp" $.P1}}">`, []string{c02Marker + ".css", "/i.png"}, false},
+		{"helper-shared-by-img-and-script-src", `{{define "hp"}}{{.}}{{end}}<img src="{{template "hp" $.P0}}"><script src="{{template "hp" $.P1}}"></script>`, []string{"/i.png", c02Marker + ".css"}, false},
+		{"link-rel-dynamic-only", `<link rel="` + S + `" href="` + S + `">`, []string{"stylesheet", c02Marker}, false},
+		{"link-rel-twice", `<link rel="stylesheet" rel="icon" href="` + S + `">`, nil, false},
+		{"link-rel-conditional", `<link {{if $.C}}rel="icon"{{else}}rel="stylesheet"{{end}} href="` + S + `">`, nil, false},
+		{"script-body", `<script>` + S + `</script>`, nil, false},
+		{"script-body-string", `<script>var x = "` + S + `";</script>`, nil, false},
+		{"style-body", `<style>` + S + `</style>`, nil, false},
+		{"style-body-decl", `<style>p{color:` + S + `}</style>`, nil, false},
+		{"comment", `<!-- ` + S + ` -->x`, nil, false},
+		{"comment-in-attr", `<a title="<!--` + S + `-->">`, nil, false},
+		{"script-after-comment-open", `<script><!--<script></script>` + S + `</script>`, nil, false},
+		{"textarea-then-script", `<textarea>` + S + `</textarea><script>` + S + `</script>`, nil, false},
 	}
 	run := func(prog string, nparts int, rng bool, cs, ws []bool, class string) {
 		atomic.AddInt64(&programs, 1)
@@ -398,7 +405,7 @@ func checkC02(r *core.Run) {
 	for _, sp := range special {
 		if sp.parts != nil {
 			text, _, _ := tmplx.Build(sp.text)
-			in := c02Replay{Program: text, Parts: sp.parts}
+			in := c02Replay{Program: text, Parts: sp.parts, Range: sp.rng}
 			d := c02Data(in)
 			res := tmplx.Run(text, &d)
 			atomic.AddInt64(&programs, 1)
